@@ -154,7 +154,7 @@ func buildP2Scenario(r *core.R, p p2ScenParams) *p2Scenario {
 		slice := []int{4, 8}[rng.Intn(2)]
 		set = scen.Set{SliceSize: slice, Blocks: 1 + rng.Intn(8), Content: "random"}
 		for i := 0; i < 2; i++ {
-			set.Files = append(set.Files, scen.File{Name: scen.GenName(rng, i, true, true), Data: scen.GenData(rng, "random", (150+rng.Intn(400))*slice-rng.Intn(slice), slice)})
+			set.Files = append(set.Files, scen.File{Name: scen.GenName(rng, i, true, true), Data: scen.GenData(rng, "random", (150+rng.Intn(900))*slice-rng.Intn(slice), slice)})
 		}
 	case "limit":
 		set = scen.Set{SliceSize: 4, Blocks: 4, Content: "random", Files: []scen.File{{Name: "big.bin", Data: scen.GenData(rng, "random", 32768*4-rng.Intn(4), 4)}}}
@@ -162,7 +162,12 @@ func buildP2Scenario(r *core.R, p p2ScenParams) *p2Scenario {
 		set = genP2Set(rng, 12, scen.ContentKinds, true)
 	}
 	g := []int{1, 2, 3, 7, 16, 64}[rng.Intn(6)]
-	env, err := newP2Env(set, "set", g)
+	// index base names include ones ending in characters of ".par2"
+	baseName := []string{"set", "data", "backup", "set2", "extra.", "par2", "a.b", "vol", "p"}[rng.Intn(9)]
+	if p.Kind == "fixed" {
+		baseName = "set"
+	}
+	env, err := newP2Env(set, baseName, g)
 	if err != nil {
 		if env != nil {
 			env.close()
